@@ -196,7 +196,8 @@ func richDoc(id int, g *docGen) string {
 		return "<!DOCTYPE html><html><head><title>" + t + "</title></head><body><div>" + h + story(3) + "</div></body></html>"
 	case 23: // odd pagers: link shapes that stress the slicing and number parsing of the page-pattern code
 		sets := [][]string{
-			{"/y/x/abc.html", "/y/x/2/y/x/abc.html", "/y/x/3/y/x/abc.html"}, // pattern prefix and suffix overlap in the first page
+			{"/y/x/abc.html", "/y/x/2/y/x/abc.html"},                        // two pages only; pattern prefix and suffix overlap in the first page
+			{"/y/x/abc.html", "/y/x/2/y/x/abc.html", "/y/x/3/y/x/abc.html"}, // the same with three pages
 			{"/story/view/1", "/story/view/99999999999999999999", "/story/view/3"},
 			{"/story/view/001", "/story/view/002", "/story/view/003"},
 			{"/1", "/2", "/3"},
@@ -211,7 +212,7 @@ func richDoc(id int, g *docGen) string {
 			{"/a/b/c/d/e/f/g/h/2", "/a/b/c/d/e/f/g/h/3", "/a/2"},
 			{"/zqt/12/p/1", "/zqt/13/p/2", "/zqt/14/p/3"},
 		}
-		set := sets[(id/nRichDocs+r.Intn(2))%len(sets)]
+		set := sets[(id/nRichDocs+r.Intn(3))%len(sets)]
 		var sb strings.Builder
 		for i, h := range set {
 			if i == 1 && r.Intn(2) == 0 {
@@ -219,7 +220,11 @@ func richDoc(id int, g *docGen) string {
 			}
 			sb.WriteString(fmt.Sprintf(`<a href="%s">%d</a> `, h, i+1))
 		}
-		body.WriteString("<div>" + story(3) + "</div><div>" + sb.String() + `<a href="` + set[len(set)-1] + `">Next</a></div>`)
+		next := `<a href="` + set[len(set)-1] + `">Next</a>`
+		if r.Intn(2) == 0 {
+			next = ""
+		}
+		body.WriteString("<div>" + story(3) + "</div><div>" + sb.String() + next + `</div>`)
 	case 24: // a pager whose numbers fall into two runs of equal length (1 2 3 ... 8 9 10)
 		lo := 1 + r.Intn(2)
 		var sb strings.Builder
